@@ -1340,3 +1340,21 @@ func siteHash(site string, seed uint64) uint64 {
 	h ^= h >> 32
 	return h
 }
+
+
+// ---- package-level channels ---------------------------------------------
+
+var globalReinits []func()
+
+// RegisterGlobalReinit is called from generated init functions of instrumented
+// packages that declare package-level channels with a make() initialiser.
+func RegisterGlobalReinit(f func()) { globalReinits = append(globalReinits, f) }
+
+// ReinitGlobals makes those channels anew; called at the start of every run,
+// inside the run's bubble (a channel made at program initialisation belongs to
+// no bubble, and blocking on it would not count as durably blocked).
+func ReinitGlobals() {
+	for _, f := range globalReinits {
+		f()
+	}
+}
